@@ -25,7 +25,7 @@ GptDims == [count : {"0", "1", "2", "4", "128"},
 GptBase == [count |-> "2", idx |-> "dense", spell |-> "startend", name |-> "ascii", attr |-> "zero",
             type |-> "known", disk |-> "m20", lss |-> "512", prev |-> "blank", guid |-> "given"]
 MbrDims == [count : {"0", "1", "2", "4"},
-            type  : {"x83", "xee", "xff", "x0c"},
+            type  : {"x83", "xee", "xff", "x0c", "x00"},      \* x00: the type byte of an unused slot, on an entry that has a start, a size and may be bootable
             start : {"one", "s2048", "max"},
             size  : {"one", "s2048", "max"},
             boot  : {"no", "yes"},
